@@ -408,19 +408,21 @@ def lean_ties(run: core.Run, pool: core.Pool, drv: core.Driver, cases: list[dict
         for t, toks in zip(ch, o):
             if isinstance(toks, dict):
                 continue
-            for _ty, _tx, off, line, col in toks:
-                pos_cases.append([t, off])
-                pos_want.append([line, col])
+            pos_cases.append([t, [off for _ty, _tx, off, _l, _c in toks]])
+            pos_want.append([[line, col] for _ty, _tx, _off, line, col in toks])
     pbad = 0
+    n_pos = sum(len(w) for w in pos_want)
+    reqs2 = [{"op": "lex.positions", "cases": pos_cases[i:i + 50]} for i in range(0, len(pos_cases), 50)]
     got2: list[Any] = []
-    for i in range(0, len(pos_cases), 4000):
-        rep = drv.batch([{"op": "lex.positions", "cases": pos_cases[i:i + 4000]}])[0]
-        got2 += rep.get("results", [None] * len(pos_cases[i:i + 4000]))
+    for rq, rep in zip(reqs2, drv.batch_parallel(reqs2, jobs)):
+        got2 += rep.get("results", [None] * len(rq["cases"])) if isinstance(rep, dict) else [None] * len(rq["cases"])
     for pc, w, g in zip(pos_cases, pos_want, got2):
         if w != g:
             pbad += 1
             if pbad <= 2:
-                run.broken_tie("Lean posOf differs from the (line, column) the ANTLR lexer reports", {"text": pc[0], "offset": pc[1], "antlr": w, "lean": g})
+                k_ = next((i for i, (x, y) in enumerate(zip(w, g or [])) if x != y), 0)
+                run.broken_tie("Lean posOf differs from the (line, column) the ANTLR lexer reports",
+                               {"text": pc[0], "offset": pc[1][k_] if pc[1] else None, "antlr": w[k_:k_ + 1], "lean": (g or [])[k_:k_ + 1]})
     # 3. splice on tokens (real lexer): the token sequence changes exactly in the tokens of the literal
     tbad = 0
     tchecked = 0
@@ -449,7 +451,7 @@ def lean_ties(run: core.Run, pool: core.Pool, drv: core.Driver, cases: list[dict
                 run.broken_tie("splice on tokens: the ANTLR token sequence of the spliced text is not before ++ printed mark ++ after",
                                {"text": c["text"], "edit": e})
     return {"replace_span_cases": len(reqs), "replace_span_mismatches": bad, "invalid_spans": sum(1 for w in want if w is None),
-            "token_positions_compared": len(pos_cases), "position_mismatches": pbad, "token_splices_checked": tchecked, "token_splice_mismatches": tbad}
+            "token_positions_compared": n_pos, "texts_position_checked": len(pos_cases), "position_mismatches": pbad, "token_splices_checked": tchecked, "token_splice_mismatches": tbad}
 
 
 # ----------------------------------------------------------------------------------------------------------------------
